@@ -12,8 +12,9 @@ import time
 ID = sys.argv[1]
 extra = sys.argv[2:]          # further check ids to run against the change
 src = '/tmp/seed/' + ID
-if ID.endswith('r3'):          # third round: worktrees /tmp/seed3/Cxx, demonstrations take the library from PYTHONPATH
-    src = '/tmp/seed3/' + ID[:3]
+NEWSTYLE = ID[3:] in ('r3', 'r4', 'r5', 'r6')          # from the third round on: worktrees /tmp/seed<k>/Cxx, demonstrations take the library from PYTHONPATH
+if NEWSTYLE:
+    src = '/tmp/seed%s/' % ID[4] + ID[:3]
 dst = '/verif/seeded/' + ID
 os.makedirs(dst, exist_ok=True)
 PROP = ID[:3]          # second-round seeds are named C05r2, ...
@@ -46,7 +47,7 @@ if not RECHECK:
     meta['repo_tests_with_change'] = [l for l in out.splitlines() if 'passed' in l or 'failed' in l][-1:] or [out[-200:]]
 if RECHECK:
     rc1, rc0 = meta['demo_with_change']['rc'], meta['demo_without_change']['rc']
-elif ID.endswith('r3'):
+elif NEWSTYLE:
     rc1, o1 = sh('PYTHONPATH=%s /venv/bin/python %s/demo.py' % (src, dst), cwd='/tmp')
     rc0, o0 = sh('PYTHONPATH=/repo /venv/bin/python %s/demo.py' % dst, cwd='/tmp')
 else:
@@ -85,8 +86,8 @@ if os.path.exists(src + '/notes.json'):
         meta['summary'], meta['needs'] = str(n.get('summary', '')), str(n.get('needs', ''))
     except Exception:
         pass
-if ID.endswith('r3'):
-    meta['round'] = 3
+if NEWSTYLE:
+    meta['round'] = int(ID[4])
 meta['checks'] = results
 meta['detected_by'] = sorted({k.split('_')[0] for k, v in results.items() if v['rc'] == 1})
 json.dump(meta, open(dst + '/meta.json', 'w'), indent=1)
